@@ -43,7 +43,9 @@ PROPS = {
  "C07": P("TestC07", "exploration",
           "function level: (PIP-10 on/off, amount 0..2^63-1, four rates over 0..2^64-1, all boundary-biased; averages equal to / 10% around / independent of spot) "
           "against a math/big oracle: result = floor(a*min(fs,fa)/max(ts,ta)) (floor(a*fs/ts) before PIP-10), error iff a rate (or with PIP-10 an average) "
-          "is zero or the quotient exceeds int64, and out*toSpot <= in*fromSpot. chain level: see evidence classes. Non-trivial = convertible case; distinct by tuple.",
+          "is zero or the quotient exceeds int64, and out*toSpot <= in*fromSpot. chain level: 2.0.2+ chains with many ungraded/under-filled blocks, timeline chains and 2.0.5 chains (PIP-10 window 3-8, prices moving 8% per block) "
+          "run next to the reference model: a conversion submitted at h must execute at the first later rated height with floor(in*src/dst) at THAT block's recorded rates (averages over the window ending at the last rated height before it). "
+          "Non-trivial = convertible tuple / chain with executed conversions; distinct by tuple or chain.",
           quick=(4, 40), thorough=(16, 3000), timeout=(300, 2400)),
  "C01": P("TestC01", "exploration",
           "rapid generates 2.0.2+ chains crossing two snapshot heights with 2-5 holders of exactly equal stake (identical conversions executed at the same rates; total stake below "
@@ -98,6 +100,65 @@ PROPS = {
           "statuses); error responses are counted, not violations; (3) the daemon reaches the tip. soak: 2 (quick) / 12 (thorough) chains synced with 6 goroutines hammering the API, binary built with -race: "
           "any race report whose accessing frames are pegnetd code is a violation; final dump == reference. Non-trivial = at least one call served while a block transaction is open; distinct by (chain, schedule).",
           quick=(8, 6), thorough=(16, 120), timeout=(900, 3300), race=True, shrinktime="30s"),
+
+ "C03": P("TestC03", "exploration",
+          "rapid generates chains (2.0.2+ and the compressed mainnet timeline incl. the legacy eras) dense in multi-transaction batches (2-4 transactions mixing transfers and conversions, several drawing on one balance, "
+          "transfers to self and conversions crediting an asset a later transaction spends) with amounts aimed at balance-1 / balance / balance+1 / 0 / half using a planning copy of the reference model. "
+          "The real daemon runs in step mode next to the reference model; after every block all balances, statuses and converted amounts are compared. C03 owns: every balance mismatch on a balance touched by a batch "
+          "(all-or-nothing: full effect or none), every status mismatch involving the insufficient-funds code (definitely sufficient batches must execute, definitely insufficient ones must be rejected; batches feasible "
+          "only through in-batch credits are a grey zone resolved from the observed verdict), and negative/wrapped balances. Non-trivial = a batch with two transactions on the same asset or an amount within 1 of the balance; distinct by chain.",
+          quick=(8, 14), thorough=(16, 250)),
+ "C04": P("TestC04", "exploration",
+          "rapid generates timeline chains (all eras: burns, mining, conversions, PEG bank), issuance chains (developer rewards on both sides of 2.0.2, zeroing of both burn addresses with prior balances, mint and mint burn) "
+          "and 2.0.2+ chains crossing snapshot heights (holder payouts), with transfers to 1-3 recipients, to self and to the burn address. Oracle per block and asset: observed supply delta (sum over pn_addresses, read from the "
+          "implementation) == sum of the block's protocol events computed by the reference model from the raw chain; and every address's balance equals the model's (so a transfer changes exactly sender and named recipients; "
+          "a balance change without any event is reported). Non-trivial = every case (all have blocks with >= 2 event types, counted); distinct by chain.",
+          quick=(8, 12), thorough=(16, 220)),
+ "C11": P("TestC11", "exploration",
+          "rapid generates 2.0 chains with OPR sets of 0-55 records (valid, wrong version byte for the height, wrong height, zero asset, bad payout address, misreported difficulty, wrong previous winners, exact duplicates, deviating prices, "
+          "fewer than 25) and SPR sets of 20-45 records incl. records from holders outside the 100 largest PEG balances (with > 100 holders present), bad signatures (from SprSignatureActivation), duplicate payout addresses and wrong "
+          "versions; and timeline chains whose legacy part has OPR V1-V4 and factoid blocks with burns and near-misses (EC amount != 0, other EC key, two inputs, an FCT output, plain transfer). Oracle: per block the PEG delta of every "
+          "address == sum of Payout() of the winners the grader library returns for the same entries (version by height, previous winners of the last graded block, top-100 filter from the model's own balances); pFCT delta == valid "
+          "burns; pn_winners rows and one coinbase history row per paid record. Non-trivial = the chain has invalid/duplicate/outsider/under-filled records or factoid blocks; distinct by (start, shape).",
+          quick=(8, 12), thorough=(16, 220)),
+ "C12": P("TestC12", "exploration",
+          "rapid generates 2.0 chains crossing the developer-reward (1%/0.1% -> 10% band) and 2.0.2 (25% band with zeroing) activations in which every block has OPR and/or SPR winners, the SPR vector being per asset equal / inside / "
+          "just inside either edge / outside the band around the OPR vector (outside only where no registered finding is triggered), with conversions pending across blocks without rates; and timeline chains covering the PEG pricing "
+          "phases zero / equation (non-trivial supplies) / floating. Oracle: pn_rate rows of every height == rows the reference model derives from the grader's winners (band comparison replayed in float64 with a 1e-12 edge "
+          "neighbourhood as don't-care; equation price with math/big over supplies at h-1); heights without winners have no rows; after the run every rated height still shows its rows and no other height has rows (immutability). "
+          "Non-trivial = both winners present and an asset outside or near the band, or a timeline chain; distinct by (start, shape).",
+          quick=(8, 12), thorough=(16, 220)),
+ "C13": P("TestC13", "exploration",
+          "rapid places one activation A (OneWaypFCT / PegNet 2.0 / OneWaySmallAssets+2.0.2 / PIP-10 with a 4-block window) mid-chain; one address is funded with every asset of the era; 20-60 drawn (source, destination) pairs "
+          "(a third aimed at PEG, pFCT and small-cap destinations) are submitted so that they execute at A-1, A and A+1. thorough additionally runs ALL ordered pairs of the era's assets at the three heights in a quarter of the cases. "
+          "Oracle (reference model): forbidden -> the specific negative code and no balance change; allowed and funded -> executed with the C07 amount. Non-trivial = the case has both forbidden and allowed conversions; distinct by (start, activation, counts).",
+          quick=(8, 10), thorough=(16, 60)),
+ "C14": P("TestC14", "exploration",
+          "rapid generates 2.0.2+ chains crossing 2-3 snapshot heights: 6-20 holders of 7 different assets (a quarter with exactly equal holdings), stake below or above the 4500x144 PEG cap (PEG priced 500-6000 USD when the conversions "
+          "execute), 0-4 movements between snapshots (out, to addresses absent from the previous snapshot, conversions between staked assets), snapshot heights without rates, assets zeroed by the 25% band rule at the snapshot block. "
+          "Oracle (reference model): stake_i = sum over non-PEG assets of floor(min(prev,cur)*rate/rate_USD); payout = stake (below the cap) or floor(stake*cap/total) + the dust for exactly one of the top stakers (resolved from "
+          "the observed balances); absent from either snapshot -> nothing. Non-trivial = >= 3 paid addresses and a binding min(); distinct by (start, shape).",
+          quick=(8, 10), thorough=(16, 150)),
+ "C15": P("TestC15", "exploration",
+          "rapid generates chains with the developer-reward activation 1-2 blocks after the start, 2.0.2 either before or after the first 144-multiple (so developer payouts happen under both the 2000 PEG and the 2000x144 PEG rule), "
+          "the mint and mint-burn activations at drawn offsets, every alignment with the 144 cadence, and prior balances in several assets on the global burn and mint addresses (paid by generated transfers). Oracle with golden "
+          "constants copied into the harness (14 developer addresses/percentages, 31 mint rows, special addresses): balance of every address after every block == model; in particular the special addresses change at no other height "
+          "than by transfers the generator sent. Non-trivial = a burn address with a balance is zeroed or >= 2 developer payouts; distinct by (start, activations, shape).",
+          quick=(8, 10), thorough=(16, 150)),
+ "C16": P("TestC16", "exploration",
+          "rapid generates legacy chains (PegnetConversionLimit active, V4 update 4-12 blocks in, PegNet 2.0 never): 12 addresses funded by FCT burns, 0-6 PEG requests per block sized at 1%-150% of the 5,000 PEG bank (a quarter "
+          "repeating the previous amount exactly), several requests in one batch, requests spread over ungraded blocks, other conversions and transfers. Oracle (reference model): per request yield (full below the bank, "
+          "proportional + dust to the highest request / lowest txid otherwise), refund = convert(maxYield - yield) back to the source asset, per-height processing before V4 and pooled processing after, pn_bank rows "
+          "(amount, used, requested). Non-trivial = >= 2 requests and a block whose total reaches the bank; distinct by (start, shape).",
+          quick=(8, 12), thorough=(16, 200)),
+ "C17": P("TestC17", "exploration",
+          "rapid generates timeline chains (all eras), issuance chains, legacy bank chains and long 2.0.2+ chains with many entries per block (fan-in: one address in > 50 actions). Three oracles: "
+          "O1 status <=> effect: the daemon runs next to the reference model; every batch's executed column must equal the model's verdict (execution height / specific negative code / 0 while waiting) and to_amount / PEG yield / refund the "
+          "model's amounts. O2 history replay: starting from empty balances, every recorded action with executed > 0 (transfers with their outputs minus burn-address outputs, conversions with the recorded to_amount and refunds, coinbases "
+          "incl. negative zeroing rows, FCT burns), applied per execution height together with the three adjustments that by design have no rows (2.0.2 burn zeroing, mint, mint burn), must reproduce pn_addresses exactly. "
+          "O3 paging through the REAL JSON-RPC server: for the 12 busiest addresses (ascending and descending), 25 sampled entry hashes and 15 heights, following nextoffset from 0 returns every recorded action (cross-checked with an "
+          "independent SQL read) exactly once and count equals the number returned. Non-trivial = every case (all contain executed, rejected and pending batches by construction of the generators; counted); distinct by chain.",
+          quick=(8, 10), thorough=(16, 150)),
 }
 
 ALL = ["C%02d" % i for i in range(1, 21)]
@@ -136,6 +197,34 @@ TEXT = {
  "C18": {"technique": "property-based testing of schedules (rapid chooses pause points at SQL-call granularity and API calls against the real server); differential vs. run without API load and vs. per-height committed states; race-detector soak",
          "level_text": "Exploration: the harness owns the schedule at SQL-statement granularity (the sync goroutine is parked inside a driver hook while real API requests are served) and samples below that with a -race build under free-running load.",
          "level_note": "Not exhaustive over interleavings: a race that needs an instruction-level interleaving and leaves no unsynchronised access for the detector would be missed. Error responses (e.g. database is locked, handler panics turned into internal errors) are counted, not violations: the statement constrains what a response reflects, not availability."},
+
+ "C03": {"technique": "model-based property testing (rapid stateful chain generation aimed at balance boundaries; reference ledger model with observed-choice resolution for the grey zone)",
+         "level_text": "Exploration: every block of every generated chain is compared with the reference model; C03 owns the mismatches on balances touched by batches and on insufficient-funds verdicts.",
+         "level_note": "The grey zone (batches feasible only through their own in-batch credits) accepts either verdict, atomically. Trusted: the reference model (DESIGN.md Appendix A), the strict FAT-2 parser and FAT-103 validator of the harness."},
+ "C04": {"technique": "model-based property testing; invariant over the history: per-block per-asset supply equation and all-address balance equality",
+         "level_text": "Exploration over all eras; the supply equation is evaluated on the implementation's own column sums against the model's event list for every block.",
+         "level_note": "Outputs to the era's burn address are destroyed by rule (before 2.0.2 that address is FA1y5ZGu..., the all-zero RCD hash). Legacy batches mixing a PEG request with other transactions are a registered finding of C16 and excluded."},
+ "C11": {"technique": "model-based property testing; differential against the grader library's verdict on the same entries",
+         "level_text": "Exploration: the glue around the graders (version by height, previous winners, top-100 filter, crediting, records) is compared block by block with a model that calls the same grader library.",
+         "level_note": "The grader modules are the reference by definition. SPRs whose signing key is not the claimed staker's and out-of-band blocks before 2.0.2 are registered known findings with probes; generators avoid them."},
+ "C12": {"technique": "model-based property testing over winner combinations and eras; immutability checked as a prefix invariant at the end of every run",
+         "level_text": "Exploration of the band/era/phase matrix with generated price vectors.",
+         "level_note": "Comparisons within 1e-12 (relative) of a band edge are don't-care (float rounding)."},
+ "C13": {"technique": "model-based property testing around each activation; exhaustive pair matrix in thorough",
+         "level_text": "Exploration; thorough enumerates every ordered asset pair at A-1, A, A+1 for a quarter of its cases.",
+         "level_note": "Zero rates arise through the 2.0.2 band zeroing and PIP-10 window under-fill."},
+ "C14": {"technique": "model-based property testing of snapshot/payout arithmetic with observed resolution of the dust recipient",
+         "level_text": "Exploration over balance distributions at 2-3 consecutive snapshots.",
+         "level_note": "Which of several exactly tied top stakers receives the dust is resolved from the observed balances (the statement allows any one)."},
+ "C15": {"technique": "model-based property testing with golden tables; negative oracle on the special addresses at every height",
+         "level_text": "Exploration over activation alignments.",
+         "level_note": "Golden constants are copied into the harness, not read from node/devs.go or node/mint.go."},
+ "C16": {"technique": "model-based property testing of the legacy PEG bank (allocation, refund, bank rows) across the V4 fork",
+         "level_text": "Exploration over request multisets around the bank size.",
+         "level_note": "Batches mixing a PEG request with other transactions are a registered known finding (double crediting / wedge) and excluded."},
+ "C17": {"technique": "model-based property testing (status/amount equality) + history-replay invariant + paging exactly-once through the real API server",
+         "level_text": "Exploration over all eras with three independent oracles per chain.",
+         "level_note": "Batches lost by C11/band-early-return and conversions that stay pending for ever (unconvertible amounts) are registered known findings with probes; chains containing blocks outside the model's specification skip the replay oracle (counted)."},
 }
 
 _BUILT = set(PROPS)
